@@ -7,7 +7,7 @@ From Coq Require Import List Arith ZArith Bool.
 Import ListNotations.
 From Acts.Gen Require Import GenState.
 From Acts.Model Require Import Engine Oracles.
-From Acts.Proofs Require Import EngineBasics ReviveInv LogInv C02Core C02Ops.
+From Acts.Proofs Require Import EngineBasics ReviveInv LogInv C02Core C02Ops FinalProofs.
 
 (* every state write of every run, for every node table (well-formed or not), every operation
    sequence and every schedule, moves the task forward through the stages
@@ -48,6 +48,13 @@ Theorem C02_states_only_move_forward :
     stage (cur c_none l1 t) <= stage (st (run ns clock0 ops) t) /\
     (is_completed (cur c_none l1 t) = true -> st (run ns clock0 ops) t = cur c_none l1 t).
 Proof. exact states_only_move_forward. Qed.
+(* ... and operationally: a task that is in a terminal state other than error after some operations of a run is in
+   that state after any further operations (an error may still be taken by a catch, once) *)
+Theorem C02_terminal_is_final :
+  forall ns clock0 ops ops' t,
+    is_completed (st (run ns clock0 ops) t) = true -> st (run ns clock0 ops) t <> SError ->
+    st (run ns clock0 (ops ++ ops')) t = st (run ns clock0 ops) t.
+Proof. exact terminal_is_final. Qed.
 (* non-vacuity: a run with a transition of every stage, and a revival *)
 Example C02_example :
   let ns := [ Build_node 0 KWorkflow 0 [(ONormal, 1)] None None false [] dspec [] [] [] [] [] [] false;
@@ -65,3 +72,4 @@ Print Assumptions C02_terminal_final.
 Print Assumptions C02_revived_at_most_once.
 Print Assumptions C02_write_from_current.
 Print Assumptions C02_states_only_move_forward.
+Print Assumptions C02_terminal_is_final.
